@@ -239,6 +239,8 @@ let run_case (lines : string list) =
            | "B" -> on_outcome (M.values_as_byte p) (fun v -> pr "ok%s\n" (String.concat "" (List.map (fun e -> " " ^ sz e) v)))
            | "I" -> on_outcome (M.values_as_int p) (fun v -> pr "ok%s\n" (String.concat "" (List.map (fun e -> " " ^ sz e) v)))
            | _ -> on_outcome (M.values_as_float p) (fun v -> pr "ok%s\n" (String.concat "" (List.map (fun e -> " " ^ hexf e) v))))
+       | "P.get" -> let k = tk_int tk in let g = tk_str tk in let n = tk_str tk in
+         on_outcome (M.group_named (o k).M.groups g) (fun gr -> on_outcome (M.param_named gr n) (fun p -> pp := p; pr "ok\n"))
        | "P.show" -> pr "ok %s\n" (param_body !pp)
        | "param" -> let k = tk_int tk in let g = tk_str tk in apply k (M.OParam (g, !pp))
        | "lock" -> let k = tk_int tk in let g = tk_str tk in apply k (M.OLock g)
@@ -331,6 +333,25 @@ let run_case (lines : string list) =
            (match M.point_idx pts n with
             | M.Ok i -> Buffer.add_string b (" " ^ su i ^ ":" ^ su i)
             | _ -> Buffer.add_string b " x")
+         done;
+         pr "%s\n" (Buffer.contents b)
+       | "mk.ptsr" | "mk.chsr" ->
+         let nc = tk_int tk in
+         let conts = Array.init nc (fun _ -> let k = tk_int tk in Array.init k (fun _ -> M.rtrim (tk_str tk))) in
+         let nq = tk_int tk in
+         let b = Buffer.create 64 in Buffer.add_string b "ok";
+         for _ = 1 to nq do
+           let what = next tk in let c = tk_int tk in
+           if what = "r" then begin
+             let j = tk_int tk in let n = tk_str tk in
+             if j < Array.length conts.(c) then (conts.(c).(j) <- M.rtrim n; Buffer.add_string b " r") else Buffer.add_string b " o"
+           end else begin
+             let n = tk_str tk in
+             let pts = List.map (fun nm -> M.lit_point nm M.N0 M.N0 M.N0 M.N0) (Array.to_list conts.(c)) in
+             (match M.point_idx pts n with
+              | M.Ok i -> Buffer.add_string b (" " ^ su i ^ ":" ^ su i)
+              | _ -> Buffer.add_string b " x")
+           end
          done;
          pr "%s\n" (Buffer.contents b)
        | "mk.self" ->
